@@ -609,6 +609,22 @@ def purity_unify(F, rep):
                             if used:
                                 forced = False
                                 depends_on = used[0]
+    # .. and the same for the functions an external *hands out*: what it returns, what its tuple / list holds.  (What it takes is
+    # the caller's business - a callback parameter may be of any purity.)
+    nested = False
+    for arm, alt in tc.arm_of(F, fos, NR + "Statement", "ExternalDefinition"):
+        for lp in nodes(arm["body"]):
+            if lp.get("k") in ("While", "Loop", "ForLoop"):
+                for asg in nodes(lp, "Assign"):
+                    r = peel(asg["r"])
+                    if r.get("k") == "Call" and (callee(r) or "").endswith("Type::Function") and len(r["args"]) == 3 and \
+                            norm_path(peel(r["args"][2]).get("path") or "").endswith("Purity::Impure"):
+                        nested = True
+    rep.ob("PURITY-UNIFY", "outer_statement|functions-an-external-hands-out-are-impure", nested,
+           "the conversion walks the declared type: functions in result, tuple and list positions are impure as well" if nested else
+           "only the outermost `fn` of an external's declared type becomes impure: a function it *returns* or holds "
+           "(`get_cb : fn -> (fn int -> int) : external`, `cbs : (fn int -> int, int) : external`) keeps the wildcard purity, and "
+           "`apply(get_cb(), 1)` with `apply :: pu g: pu int -> int ..` is accepted", fos["sp"])
     rep.ob("PURITY-UNIFY", "outer_statement|external-fn-is-impure", forced,
            "an external declared with `fn` gets Purity::Impure (its declaration is all that is known about it)" if forced else
            "an external declared `fn` becomes impure only depending on `%s` of the declaration: for the others the wildcard purity of "
